@@ -12,58 +12,85 @@ theorem upd_apply {α : Type} (f : Nat → α) (i : Nat) (x : α) (j : Nat) : up
 
 /-! ### allocation -/
 
+/-- the fill loop of a new block against `pushRange` -/
+theorem pushFree_spec (n : Nat) : ∀ (t : PTable) (first : Nat) (l : List Nat),
+    FreeL t.items t.freeItem l → (∀ x ∈ l, x < first) →
+    FreeL (t.pushFree first n).items (t.pushFree first n).freeItem (Table.pushRange first n l) ∧
+    (∀ j, ((t.pushFree first n).items j).key = (t.items j).key ∧ ((t.pushFree first n).items j).value = (t.items j).value ∧
+          ((t.pushFree first n).items j).cell = (t.items j).cell ∧ ((t.pushFree first n).items j).nextCell = (t.items j).nextCell ∧
+          ((t.pushFree first n).items j).next = (t.items j).next) ∧
+    (∀ j, j < first → ((t.pushFree first n).items j).prev = (t.items j).prev) ∧
+    (t.pushFree first n).self = t.self ∧ (t.pushFree first n).cap = t.cap ∧
+    (t.pushFree first n).allocated = t.allocated ∧ (t.pushFree first n).heads = t.heads ∧
+    (t.pushFree first n).begin = t.begin ∧ (t.pushFree first n).endPrev = t.endPrev ∧
+    (t.pushFree first n).size = t.size ∧ (t.pushFree first n).blocks = t.blocks ∧
+    (t.pushFree first n).ipb = t.ipb ∧ (t.pushFree first n).dcap = t.dcap := by
+  induction n with
+  | zero =>
+    intro t first l hf _
+    exact ⟨hf, fun j => ⟨rfl, rfl, rfl, rfl, rfl⟩, fun j _ => rfl, rfl, rfl, rfl, rfl, rfl, rfl, rfl, rfl, rfl, rfl⟩
+  | succ n ih =>
+    intro t first l hf hlt
+    simp only [PTable.pushFree, Table.pushRange]
+    have hstep : FreeL ({ t.setPrev first t.freeItem with freeItem := some first } : PTable).items
+        ({ t.setPrev first t.freeItem with freeItem := some first } : PTable).freeItem (first :: l) := by
+      refine ⟨rfl, ?_⟩
+      simp only [PTable.setPrev, upd_apply, if_true]
+      apply (FreeL_congr _ _ _).2 hf
+      intro j hj
+      have : j ≠ first := by have := hlt j hj; omega
+      simp [upd_apply, this]
+    obtain ⟨i1, i2, i3, i4, i5, i6, i7, i8, i9, i10, i11, i12, i13⟩ := ih _ (first + 1) (first :: l) hstep
+      (by
+        intro x hx
+        rcases List.mem_cons.1 hx with e | e
+        · omega
+        · have := hlt x e; omega)
+    refine ⟨i1, fun j => ?_, fun j hj => ?_, i4, i5, i6, i7, i8, i9, i10, i11, i12, i13⟩
+    · rw [(i2 j).1, (i2 j).2.1, (i2 j).2.2.1, (i2 j).2.2.2.1, (i2 j).2.2.2.2]
+      by_cases e : j = first <;> simp [PTable.setPrev, upd_apply, e]
+    · rw [i3 j (by omega)]
+      have : j ≠ first := by omega
+      simp [PTable.setPrev, upd_apply, this]
+
 theorem alloc_sim (kind : Kind) (pt : PTable) (t : Table)
-    (hfree : FreeL pt.items pt.freeItem t.free) (hb : pt.blocks = t.blocks) :
+    (hfree : FreeL pt.items pt.freeItem t.free) (hb : pt.blocks = t.blocks) (hk : pt.ipb = t.ipb) (hpos : 0 < t.ipb) :
     (pt.allocItem kind).1 = (t.allocItem kind).1 ∧
     FreeL (pt.allocItem kind).2.items (pt.allocItem kind).2.freeItem (t.allocItem kind).2.1 ∧
     (pt.allocItem kind).2.blocks = (t.allocItem kind).2.2 ∧
     (∀ j, ((pt.allocItem kind).2.items j).key = (pt.items j).key ∧ ((pt.allocItem kind).2.items j).value = (pt.items j).value ∧
           ((pt.allocItem kind).2.items j).cell = (pt.items j).cell ∧ ((pt.allocItem kind).2.items j).nextCell = (pt.items j).nextCell ∧
           ((pt.allocItem kind).2.items j).next = (pt.items j).next) ∧
-    (∀ j, j < 4 * t.blocks → ((pt.allocItem kind).2.items j).prev = (pt.items j).prev) ∧
+    (∀ j, j < t.ipb * t.blocks → ((pt.allocItem kind).2.items j).prev = (pt.items j).prev) ∧
     (pt.allocItem kind).2.self = pt.self ∧ (pt.allocItem kind).2.cap = pt.cap ∧
     (pt.allocItem kind).2.allocated = pt.allocated ∧ (pt.allocItem kind).2.heads = pt.heads ∧
     (pt.allocItem kind).2.begin = pt.begin ∧ (pt.allocItem kind).2.endPrev = pt.endPrev ∧
-    (pt.allocItem kind).2.size = pt.size := by
+    (pt.allocItem kind).2.size = pt.size ∧ (pt.allocItem kind).2.ipb = pt.ipb ∧ (pt.allocItem kind).2.dcap = pt.dcap := by
   unfold PTable.allocItem Table.allocItem
   cases hf : t.free with
   | cons f rest =>
     rw [hf] at hfree
     simp only [FreeL] at hfree
     simp only [hfree.1]
-    exact ⟨(by triv), hfree.2, hb, fun j => ⟨(by triv), (by triv), (by triv), (by triv), (by triv)⟩, fun j _ => (by triv), (by triv), (by triv), (by triv), (by triv), (by triv), (by triv), (by triv)⟩
+    exact ⟨by triv, hfree.2, hb, fun j => ⟨by triv, by triv, by triv, by triv, by triv⟩, fun j _ => by triv, by triv, by triv, by triv, by triv,
+      by triv, by triv, by triv, by triv, by triv⟩
   | nil =>
     rw [hf] at hfree
     simp only [FreeL] at hfree
-    simp only [hfree, hb]
-    by_cases hk : kind = Kind.pool
-    · simp only [hk, if_true]
-      refine ⟨(by triv), ?_, (by triv), ?_, ?_, (by triv), (by triv), (by triv), (by triv), (by triv), (by triv), (by triv)⟩
-      · simp [FreeL, PTable.setPrev, upd_apply]
-      · intro j
-        simp only [PTable.setPrev, upd_apply]
-        by_cases h0 : j = 4 * t.blocks <;> by_cases h1 : j = 4 * t.blocks + 1 <;>
-          by_cases h2 : j = 4 * t.blocks + 2 <;> by_cases h3 : j = 4 * t.blocks + 3 <;> simp [h0, h1, h2, h3]
-      · intro j hj
-        simp only [PTable.setPrev, upd_apply]
-        have h0 : j ≠ 4 * t.blocks := by omega
-        have h1 : j ≠ 4 * t.blocks + 1 := by omega
-        have h2 : j ≠ 4 * t.blocks + 2 := by omega
-        have h3 : j ≠ 4 * t.blocks + 3 := by omega
-        simp [h0, h1, h2, h3]
-    · simp only [hk, if_false]
-      refine ⟨(by triv), ?_, (by triv), ?_, ?_, (by triv), (by triv), (by triv), (by triv), (by triv), (by triv), (by triv)⟩
-      · simp [FreeL, PTable.setPrev, upd_apply]
-      · intro j
-        simp only [PTable.setPrev, upd_apply]
-        by_cases h1 : j = 4 * t.blocks + 1 <;>
-          by_cases h2 : j = 4 * t.blocks + 2 <;> by_cases h3 : j = 4 * t.blocks + 3 <;> simp [h1, h2, h3]
-      · intro j hj
-        simp only [PTable.setPrev, upd_apply]
-        have h1 : j ≠ 4 * t.blocks + 1 := by omega
-        have h2 : j ≠ 4 * t.blocks + 2 := by omega
-        have h3 : j ≠ 4 * t.blocks + 3 := by omega
-        simp [h1, h2, h3]
+    have hnil : FreeL pt.items pt.freeItem [] := hfree
+    simp only [hfree, hb, hk]
+    by_cases hkind : kind = Kind.pool
+    · simp only [hkind, if_true]
+      obtain ⟨i1, i2, i3, i4, i5, i6, i7, i8, i9, i10, i11, i12, i13⟩ :=
+        pushFree_spec (t.ipb - 1 + 1) pt (t.ipb * t.blocks) [] hnil (by simp)
+      rw [pushRange_succ_last] at i1
+      simp only [FreeL] at i1
+      refine ⟨by triv, ?_, by triv, fun j => i2 j, fun j hj => i3 j hj, i4, i5, i6, i7, i8, i9, i10, i12.trans hk, i13⟩
+      exact i1.2
+    · simp only [hkind, if_false]
+      obtain ⟨i1, i2, i3, i4, i5, i6, i7, i8, i9, i10, i11, i12, i13⟩ :=
+        pushFree_spec (t.ipb - 1) pt (t.ipb * t.blocks + 1) [] hnil (by simp)
+      exact ⟨by triv, i1, by triv, fun j => i2 j, fun j hj => i3 j (by omega), i4, i5, i6, i7, i8, i9, i10, i12.trans hk, i13⟩
 
 /-! ### pushing the new item to the front of its bucket chain -/
 
@@ -82,7 +109,8 @@ theorem linkChain_spec (kind : Kind) (p1 : PTable) (d : Nat → List Nat) (id c 
     (p1.linkChain kind id c k v).self = p1.self ∧ (p1.linkChain kind id c k v).cap = p1.cap ∧
     (p1.linkChain kind id c k v).allocated = p1.allocated ∧ (p1.linkChain kind id c k v).begin = p1.begin ∧
     (p1.linkChain kind id c k v).endPrev = p1.endPrev ∧ (p1.linkChain kind id c k v).size = p1.size ∧
-    (p1.linkChain kind id c k v).freeItem = p1.freeItem ∧ (p1.linkChain kind id c k v).blocks = p1.blocks := by
+    (p1.linkChain kind id c k v).freeItem = p1.freeItem ∧ (p1.linkChain kind id c k v).blocks = p1.blocks ∧
+    (p1.linkChain kind id c k v).ipb = p1.ipb ∧ (p1.linkChain kind id c k v).dcap = p1.dcap := by
   have hc := hch c
   unfold PTable.linkChain
   cases hdc : d c with
@@ -90,7 +118,7 @@ theorem linkChain_spec (kind : Kind) (p1 : PTable) (d : Nat → List Nat) (id c 
     rw [hdc] at hc
     simp only [Chain, GSeg] at hc
     simp only [hc]
-    refine ⟨?_, fun j => ?_, fun j hj => ?_, by simp [upd_apply], by simp [upd_apply], (by triv), (by triv), (by triv), (by triv), (by triv), (by triv), (by triv), (by triv)⟩
+    refine ⟨?_, fun j => ?_, fun j hj => ?_, by simp [upd_apply], by simp [upd_apply], (by triv), (by triv), (by triv), (by triv), (by triv), (by triv), (by triv), (by triv), (by triv), (by triv)⟩
     · intro b
       by_cases hb : b = c
       · subst hb
@@ -110,7 +138,7 @@ theorem linkChain_spec (kind : Kind) (p1 : PTable) (d : Nat → List Nat) (id c 
     have hnd' := hnd c
     rw [hdc, List.nodup_cons] at hnd'
     simp only [hh, PTable.setCell]
-    refine ⟨?_, fun j => ?_, fun j hj => ?_, ?_, ?_, (by triv), (by triv), (by triv), (by triv), (by triv), (by triv), (by triv), (by triv)⟩
+    refine ⟨?_, fun j => ?_, fun j hj => ?_, ?_, ?_, (by triv), (by triv), (by triv), (by triv), (by triv), (by triv), (by triv), (by triv), (by triv), (by triv)⟩
     · intro b
       by_cases hb : b = c
       · subst hb
